@@ -19,7 +19,7 @@ struct Obs {
 static Obs observe(sb_light_player_t* pl, unsigned long t, int mode)
 {
     Obs o;
-    memset(&o, 0, sizeof(o));
+    memset(&o, SBH_FILL, sizeof(o));
     if (mode == 0) {
         // one seek through sb_light_player_seek; colour/pyro are not observable without a further
         // seek through the C API, so they are taken from a second player state copy: not possible.
@@ -56,7 +56,7 @@ SB_OP(lightq)
     auto v = unhex(t[2]);
     ExactBuf view(v);
     sb_light_program_t prog;
-    memset(&prog, 0, sizeof(prog));
+    memset(&prog, SBH_FILL, sizeof(prog));
     sb_error_t rc = sb_light_program_init_from_buffer(&prog, view.p, view.n);
     add(out, (long long)rc);
     if (rc != SB_SUCCESS)
